@@ -374,6 +374,10 @@ def _get_rootfinder_default_method(method):
 def _get_equilibrium_default_method(method):
     if method is None:
         return _get_rootfinder_default_method(method)
+    elif isinstance(method, str):
+        # the name decides between the equilibrium and rootfinder algorithms
+        # below, so it must be normalized as in get_method
+        return method.lower()
     else:
         return method
 
